@@ -748,6 +748,9 @@ def unroll_literal_loops(tree):
             return list(tables[cls + '.' + it.attr])
         if isinstance(it, (ast.Tuple, ast.List)) and it.elts and len(it.elts) <= 4 and all(isinstance(e, ast.Name) for e in it.elts):
             return [('name', e.id) for e in it.elts]
+        if isinstance(it, (ast.Tuple, ast.List)) and it.elts and len(it.elts) <= 4 and all(
+                isinstance(e, ast.Name) or (isinstance(e, ast.Constant) and isinstance(e.value, (int, float)) and not isinstance(e.value, bool)) for e in it.elts):
+            return [('name', e.id) if isinstance(e, ast.Name) else e.value for e in it.elts]       # (U, V, 1)
         if isinstance(it, (ast.Tuple, ast.List)) and it.elts and len(it.elts) <= 4 and all(_dotted_load(e) for e in it.elts):
             return [('name', ast.unparse(e)) for e in it.elts]
         if isinstance(it, ast.Name) and fnnode is not None:
@@ -794,7 +797,7 @@ def unroll_literal_loops(tree):
             if len(node.generators) == 1 and not node.generators[0].ifs and not node.generators[0].is_async \
                     and isinstance(node.generators[0].target, ast.Name):
                 vals = literal_of(self.fn, node.generators[0].iter, self.cls)
-                if vals and all(isinstance(v, (str, int)) for v in vals):
+                if vals and all(isinstance(v, (str, int, float)) or (isinstance(v, tuple) and len(v) == 2 and v[0] == 'name') for v in vals):
                     name = node.generators[0].target.id
                     elts = [Subst(name, v).visit(copy.deepcopy(node.elt)) for v in vals]
                     return ast.copy_location(ast.List(elts=elts, ctx=ast.Load()), node)
@@ -820,7 +823,7 @@ def unroll_literal_loops(tree):
             if par_ok and len(node.generators) == 1 and not node.generators[0].ifs and not node.generators[0].is_async \
                     and isinstance(node.generators[0].target, ast.Name):
                 vals = literal_of(self.fn, node.generators[0].iter, self.cls)
-                if vals and all(isinstance(v, (str, int)) for v in vals):
+                if vals and all(isinstance(v, (str, int, float)) or (isinstance(v, tuple) and len(v) == 2 and v[0] == 'name') for v in vals):
                     name = node.generators[0].target.id
                     elts = [Subst(name, v).visit(copy.deepcopy(node.elt)) for v in vals]
                     return ast.copy_location(ast.List(elts=elts, ctx=ast.Load()), node)
